@@ -11,6 +11,8 @@ import (
 	"fmt"
 	"io"
 	"os"
+	"runtime"
+	"sync"
 	"testing"
 )
 
@@ -45,6 +47,11 @@ type vcase struct {
 	Suffix []string `json:"suffix"`
 	Pos    int      `json:"pos"`
 	Msg    *vmsg    `json:"msg"`
+	// batch mode: the whole list goes through the encoder first and every result is kept by the caller
+	Items  []vcase `json:"items"`
+	Conc   int     `json:"conc"`   // > 1: that many concurrent callers (item i belongs to caller i mod conc)
+	Procs  int     `json:"procs"`  // GOMAXPROCS while the concurrent callers run (0 = unchanged)
+	Shared bool    `json:"shared"` // the caller reuses ONE input buffer for every call (sequential only)
 }
 type vres struct {
 	Ok     bool     `json:"ok"`
@@ -57,6 +64,11 @@ type vres struct {
 	Pos    int      `json:"pos"`
 	Msg    *vmsg    `json:"msg"`
 	Panic  string   `json:"panic"`
+	// batch mode
+	Items     []vres `json:"items,omitempty"`
+	Snap      string `json:"snap"`      // the encoding as it was right after its own call (the driver's copy)
+	DecStable bool   `json:"decstable"` // the decoded value still looks as it did right after its own decode call
+	Alias     bool   `json:"alias"`     // informational: the decoded value changed when the decoder's input was overwritten afterwards
 }
 
 func errClass(err error) string {
@@ -145,6 +157,204 @@ func fromMsg(m *Message) *vmsg {
 	return out
 }
 
+
+// ---- batch mode ----
+// k calls of one encoder whose results are ALL kept by the caller (not copied: the point is to observe what the
+// caller holds), then k calls of the decoder on what is held, all decoded values kept as well, and only then is
+// anything looked at.  The driver records; the oracle is in c15.py.
+
+func runCalls(n, conc, procs int, call func(i int)) {
+	if conc <= 1 {
+		for i := 0; i < n; i++ {
+			call(i)
+		}
+		return
+	}
+	if procs > 0 {
+		prev := runtime.GOMAXPROCS(procs)
+		defer runtime.GOMAXPROCS(prev)
+	}
+	var wg sync.WaitGroup
+	for w := 0; w < conc; w++ {
+		wg.Add(1)
+		go func(w int) {
+			defer wg.Done()
+			for i := w; i < n; i += conc {
+				call(i)
+				runtime.Gosched()
+			}
+		}(w)
+	}
+	wg.Wait()
+}
+
+func guard(r *vres, f func()) {
+	defer func() {
+		if p := recover(); p != nil {
+			r.Panic = fmt.Sprint(p)
+		}
+	}()
+	f()
+}
+
+// enc(i) -> the bytes the caller holds; dec(i, held) -> a value the caller holds; view(i, value, r) writes the
+// value's projection into r.  afterEnc runs when the last encoder call has returned.
+func runBatch(c vcase, afterEnc func(), enc func(i int) ([]byte, error), dec func(i int, b []byte) (interface{}, error),
+	view func(i int, v interface{}, r *vres)) []vres {
+	n := len(c.Items)
+	res := make([]vres, n)
+	held := make([][]byte, n)
+	snaps := make([][]byte, n)
+	runCalls(n, c.Conc, c.Procs, func(i int) {
+		guard(&res[i], func() {
+			out, err := enc(i)
+			held[i] = out
+			res[i].Ok, res[i].Err = err == nil, errClass(err)
+			snaps[i] = append([]byte(nil), out...)
+		})
+	})
+	afterEnc()
+	for i := range res { // what the caller holds after the LAST call
+		res[i].Snap = hex.EncodeToString(snaps[i])
+		res[i].Out = hex.EncodeToString(held[i])
+	}
+	vals := make([]interface{}, n)
+	decSnap := make([]string, n)
+	project := func(i int) string {
+		var tmp vres
+		guard(&tmp, func() { view(i, vals[i], &tmp) })
+		b, _ := json.Marshal(tmp)
+		return string(b)
+	}
+	for i := range res {
+		if !res[i].Ok || res[i].Panic != "" {
+			continue
+		}
+		guard(&res[i], func() {
+			v, err := dec(i, held[i])
+			vals[i] = v
+			res[i].Ok2, res[i].Err2 = err == nil, errClass(err)
+		})
+		if res[i].Ok2 {
+			decSnap[i] = project(i)
+		}
+	}
+	for i := range res {
+		if res[i].Ok2 {
+			guard(&res[i], func() { view(i, vals[i], &res[i]) })
+			res[i].DecStable = project(i) == decSnap[i]
+		}
+	}
+	// informational: does the decoded value share storage with the decoder's input?
+	for i := range res {
+		if res[i].Ok2 {
+			for j := range held[i] {
+				held[i][j] ^= 0x5a
+			}
+			res[i].Alias = project(i) != decSnap[i]
+		}
+	}
+	return res
+}
+
+// the inputs of a batch and the buffer each call is given: its own, or (shared) ONE buffer the caller reuses
+func batchInputs(c vcase) (data [][]byte, input func(i int) []byte, afterEnc func()) {
+	n := len(c.Items)
+	data = make([][]byte, n)
+	maxLen := 0
+	for i, it := range c.Items {
+		data[i], _ = hex.DecodeString(it.Data)
+		if data[i] == nil {
+			data[i] = []byte{}
+		}
+		if len(data[i]) > maxLen {
+			maxLen = len(data[i])
+		}
+	}
+	shared := make([]byte, maxLen)
+	input = func(i int) []byte {
+		if !c.Shared || c.Conc > 1 {
+			return data[i]
+		}
+		in := shared[:len(data[i])]
+		copy(in, data[i])
+		return in
+	}
+	afterEnc = func() { // the caller goes on using its input buffer
+		for j := range shared {
+			shared[j] = 0xa5
+		}
+	}
+	return
+}
+
+func bytesView(i int, v interface{}, r *vres) {
+	b, _ := v.([]byte)
+	r.Out2 = hex.EncodeToString(b)
+}
+
+type readBack struct {
+	n   Name
+	pos int
+}
+
+func batch(c vcase, r *vres) {
+	if len(c.Items) == 0 {
+		return
+	}
+	_, input, afterEnc := batchInputs(c)
+	switch c.Items[0].Op {
+	case "rt_txt":
+		r.Items = runBatch(c, afterEnc,
+			func(i int) ([]byte, error) { return EncodeRDataTXT(input(i)), nil },
+			func(i int, b []byte) (interface{}, error) { return DecodeRDataTXT(b) }, bytesView)
+	case "dec_txt": // decoder alone: every decoded value is kept until all inputs are decoded
+		r.Items = runBatch(c, afterEnc,
+			func(i int) ([]byte, error) { return input(i), nil },
+			func(i int, b []byte) (interface{}, error) { return DecodeRDataTXT(b) }, bytesView)
+	case "name_rt": // NewName; a fresh builder per name; readName on what the builder returned
+		r.Items = runBatch(c, afterEnc,
+			func(i int) ([]byte, error) {
+				n, err := NewName(unhexAll(c.Items[i].Labels))
+				if err != nil {
+					return nil, err
+				}
+				b := newMessageBuilder()
+				if err := b.WriteName(n); err != nil {
+					return nil, err
+				}
+				return b.Bytes(), nil
+			},
+			func(i int, b []byte) (interface{}, error) {
+				rd := bytes.NewReader(b)
+				n, err := readName(rd)
+				p, _ := rd.Seek(0, io.SeekCurrent)
+				return readBack{n, int(p)}, err
+			},
+			func(i int, v interface{}, r *vres) {
+				rb := v.(readBack)
+				r.Labels, r.Pos = hexAll(rb.n), rb.pos
+			})
+	case "msg_rt":
+		r.Items = runBatch(c, afterEnc,
+			func(i int) ([]byte, error) { return toMsg(c.Items[i].Msg).WireFormat() },
+			func(i int, b []byte) (interface{}, error) {
+				m, err := MessageFromWireFormat(b)
+				return &m, err
+			},
+			func(i int, v interface{}, r *vres) { r.Msg = fromMsg(v.(*Message)) })
+	case "msg_dec":
+		r.Items = runBatch(c, afterEnc,
+			func(i int) ([]byte, error) { return input(i), nil },
+			func(i int, b []byte) (interface{}, error) {
+				m, err := MessageFromWireFormat(b)
+				return &m, err
+			},
+			func(i int, v interface{}, r *vres) { r.Msg = fromMsg(v.(*Message)) })
+	}
+	r.Ok = true
+}
+
 func runCase(c vcase) (r vres) {
 	defer func() {
 		if p := recover(); p != nil {
@@ -153,6 +363,8 @@ func runCase(c vcase) (r vres) {
 	}()
 	d, _ := hex.DecodeString(c.Data)
 	switch c.Op {
+	case "batch":
+		batch(c, &r)
 	case "rt_txt":
 		e := EncodeRDataTXT(d)
 		r.Ok = true
